@@ -54,14 +54,14 @@ def rule_wctx(prog, em):
                 l = op_local(t['discr'])
                 defs = defuse(b).defs.get(l, []) if l is not None else []
                 if len(defs) == 1 and defs[0][2] == 'assign' and defs[0][3]['k'] == 'discr':
-                    o = single_origin(trace_local(b, defs[0][3]['pl']['l'], ()))
-                    if o is not None and o.kind == 'callres' and 'operator::InfixOpType' in o.data.term['dest']['ty']:
+                    o = _optype_source(b, defs[0][3]['pl'])
+                    if o is not None:
                         for v, tb in switch_edges(b, bb):
                             if v == setter_idx:
                                 sedge = (bb, tb, o.data)
             elif o.kind == 'discr':
-                oo = single_origin(trace_local(b, o.data[2]['pl']['l'], ()))
-                if oo is not None and oo.kind == 'callres' and 'operator::InfixOpType' in oo.data.term['dest']['ty']:
+                oo = _optype_source(b, o.data[2]['pl'])
+                if oo is not None:
                     for v, tb in switch_edges(b, bb):
                         if v == setter_idx:
                             sedge = (bb, tb, oo.data)
@@ -143,6 +143,19 @@ def rule_wctx(prog, em):
         else:
             obs.append(ok('WCTX', key, 'one context write, on the SETTER edge only, after both operands and the handler, value = handler result, name = Reference name of the left operand, followed only by Ok(None), on every Ok path', w.where()))
     return obs
+
+
+def _optype_source(b, pl):
+    """the call whose result the discriminated operator type comes from: `get_op_type(op)?`, or the type field of the
+    whole record read in one lookup (`let config = get(op)?; match config.1 { .. }`)"""
+    o = single_origin(trace_local(b, pl['l'], ())) if not pl['p'] else None
+    if o is not None and o.kind == 'callres' and 'operator::InfixOpType' in o.data.term['dest']['ty']:
+        return o
+    if (pl.get('ty') or '').endswith('operator::InfixOpType'):
+        o = single_origin(trace_operand(b, {'k': 'copy', 'pl': pl}, through_calls=set()))
+        if o is not None and o.kind == 'callres':
+            return o
+    return None
 
 
 def rule_ctx_store(prog, em):
